@@ -252,7 +252,8 @@ func faults() []fault {
 		{name: "string-from-huge-int", vars: []vd{{"n", "int", "1 << 40"}}, stmt: `_ = string(rune(n))`, mayNotFault: true},
 		{name: "append-nil", vars: []vd{{"a", "[]int", ""}}, stmt: `a = append(a, a...); _ = a`, mayNotFault: true},
 		{name: "copy-nil", vars: []vd{{"a", "[]int", ""}, {"s", "string", `"x"`}}, stmt: `_ = copy(a, a); _ = s`, mayNotFault: true},
-		{name: "len-nil-ptrarray", vars: []vd{{"pa", "*[3]int", ""}}, stmt: `_ = len(pa); for i := range pa { _ = i }`, mayNotFault: true},
+		{name: "len-nil-ptrarray", vars: []vd{{"pa", "*[3]int", ""}}, stmt: `_ = len(pa)`, mayNotFault: true},
+		{name: "range-nil-ptrarray-index-only", vars: []vd{{"pa", "*[3]int", ""}}, stmt: `for i := range pa { _ = i }`, mayNotFault: true},
 		{name: "delete-nil-map", vars: []vd{{"m", "map[string]int", ""}}, stmt: `delete(m, "a")`, mayNotFault: true},
 		{name: "read-nil-map", vars: []vd{{"m", "map[string]int", ""}}, stmt: `_ = m["a"]`, mayNotFault: true},
 		{name: "explicit-panic-error", stmt: `panic(H.Err)`},
@@ -633,7 +634,9 @@ func faultSpaces() []kit.Space {
 					where = "|at=" + positions[pos]
 				}
 				o := judge(r, ctx, detail, false, f.hostFault, where)
-				if o.OK && !f.mayNotFault && o.Class == "returned nil" {
+				if o.OK && !f.mayNotFault && o.Class == "returned nil" && strings.HasSuffix(positions[pos], "-with-deferred-recover") {
+					o.Class = "returned nil (fault recovered by the template)"
+				} else if o.OK && !f.mayNotFault && o.Class == "returned nil" {
 					o.Class = "returned nil although Go faults (C01's business)"
 				}
 				return o
@@ -742,11 +745,7 @@ func depthSpace(tier string) kit.Space {
 			if r.buildErr != nil {
 				return kit.Outcome{OK: true, Class: "does not build: " + kit.NormMsg(stripPos(r.buildErr.Error()))}
 			}
-			group := c.name
-			if k := strings.IndexByte(group, '-'); k > 0 {
-				group = group[:k]
-			}
-			return judge(r, ctx, detail, false, false, "|in="+group)
+			return judge(r, ctx, detail, false, false, "|in=depth")
 		},
 		Describe: func(i uint64) any {
 			c, d, withCtx := at(i)
